@@ -8,6 +8,8 @@ package verifsim
 // point) after the scheduler hook has let it through.
 
 import (
+	"syscall"
+	"os"
 	"context"
 	"fmt"
 	"net"
@@ -316,7 +318,8 @@ func (w *MyWorld) Dial(addr string, deadline time.Time) (net.Conn, error) {
 	if h == nil || !h.Up || h.Net == "refuse" {
 		w.mu.Unlock()
 		time.Sleep(20 * time.Millisecond) // a refused dial costs a round trip (keeps busy retry loops live on the virtual clock)
-		return nil, fmt.Errorf("dial tcp %s: connect: connection refused", addr)
+		// what net.Dialer returns: an *net.OpError (a net.Error whose Timeout() is false) around ECONNREFUSED
+		return nil, &net.OpError{Op: "dial", Net: "tcp", Err: os.NewSyscallError("connect", syscall.ECONNREFUSED)}
 	}
 	if h.Net == "isolated" {
 		w.mu.Unlock()
@@ -328,7 +331,8 @@ func (w *MyWorld) Dial(addr string, deadline time.Time) (net.Conn, error) {
 			time.Sleep(d)
 		}
 		// like net's timeout error, it matches context.DeadlineExceeded
-		return nil, fmt.Errorf("dial tcp %s: i/o timeout: %w", addr, context.DeadlineExceeded)
+		// a dial that ran into the context deadline: *net.OpError with Timeout() true, matching context.DeadlineExceeded
+		return nil, &net.OpError{Op: "dial", Net: "tcp", Err: context.DeadlineExceeded}
 	}
 	cl, sv := net.Pipe()
 	w.connID++
